@@ -70,6 +70,14 @@ const CONTEXTS: &[Context] = &[
     Context { name: "elisp-string-after-ctrl", pre: b"\"a\\^", post: b"\"", in_token: true, verbatim: None, elisp: true },
     Context { name: "elisp-string-after-meta", pre: b"\"\\M-", post: b"b\"", in_token: true, verbatim: None, elisp: true },
     Context { name: "elisp-char-after-ctrl", pre: b"?\\C-", post: b"", in_token: true, verbatim: None, elisp: true },
+    // names that run to the end of the input, with each kind of first character
+    Context { name: "sign-led-symbol-at-end", pre: b"-", post: b"", in_token: true, verbatim: None, elisp: false },
+    Context { name: "plus-led-symbol-at-end", pre: b"+a", post: b"", in_token: true, verbatim: None, elisp: false },
+    Context { name: "non-ascii-led-symbol-at-end", pre: b"\xc3\xa9", post: b"", in_token: true, verbatim: None, elisp: false },
+    Context { name: "non-ascii-led-symbol-at-end-of-list", pre: b"(a b \xce\xbbx", post: b"", in_token: true, verbatim: None, elisp: false },
+    Context { name: "dot-led-symbol-at-end", pre: b".a", post: b"", in_token: true, verbatim: None, elisp: false },
+    Context { name: "keyword-at-end", pre: b"#:\xc3\xa9", post: b"", in_token: true, verbatim: None, elisp: false },
+    Context { name: "ascii-symbol-at-end", pre: b"ab", post: b"", in_token: true, verbatim: None, elisp: false },
     Context { name: "char-after-ascii", pre: b"#\\a", post: b"", in_token: true, verbatim: None, elisp: false },
     Context { name: "char-name-middle", pre: b"(#\\spa", post: b"ce)", in_token: true, verbatim: None, elisp: false },
     Context { name: "char-hex-digits", pre: b"#\\x4", post: b" 1", in_token: true, verbatim: None, elisp: false },
